@@ -374,7 +374,8 @@ def r8_tick_units(facts):
             if not ap:
                 continue
             t = strip(ap[0])
-            if t.get('id') == par and ap[2] == '*=' and any(y.get('k') == 'MemberExpr' and short(y['n']) == 'm_tempoMultiplier' for y in walk(ap[1])):
+            if t.get('id') == par and ap[2] in ('*=', '=') and any(y.get('k') == 'MemberExpr' and short(y['n']) == 'm_tempoMultiplier' for y in walk(ap[1])) and \
+                    (ap[2] == '*=' or (strip(ap[1]).get('k') == 'BinaryOperator' and strip(ap[1]).get('op') == '*' and any(y.get('id') == par for y in walk(ap[1])))):
                 scale = (b, j)
             if t.get('k') == 'MemberExpr' and short(t['n']) in ('wait', 'absTimePosition') and ap[2] in ('-=', '+='):
                 uses.append((b, j, st, short(t['n']), ap[1]))
